@@ -309,6 +309,12 @@ def H_tuple(elts: list[dict]) -> dict:
 H_PLAIN = {"k": "plain"}
 
 
+# while fn_source renders a case with `share_aliases`, every distinct annotated-tensor hint is written once, as a module-level
+# alias `_A<i> = Annotated[...]`, and referred to by that name wherever it occurs (bare, under `| None`, inside tuple[...]):
+# the ordinary way to write such signatures.  All occurrences then share ONE annotation object (and compare equal).
+_ALIASES: dict | None = None
+
+
 def hint_src(h: dict) -> str:
     k = h["k"]
     if k == "plain":
@@ -316,7 +322,10 @@ def hint_src(h: dict) -> str:
     if k == "ann":
         shape = "None" if h["shape"] is None else repr(h["shape"])
         ann = f"dltype.{h['cls']}({shape})" if h.get("call") else f"dltype.{h['cls']}[{shape}]"
-        return f"Annotated[{BASE_SRC[h['lib']]}, {ann}]"
+        full = f"Annotated[{BASE_SRC[h['lib']]}, {ann}]"
+        if _ALIASES is not None:
+            return _ALIASES.setdefault(full, f"_A{len(_ALIASES)}")
+        return full
     if k == "annother":
         return "Annotated[int, 'meta']"
     if k == "annbad":  # dltype annotation on an unsupported base type
@@ -477,15 +486,52 @@ class NotAProvider:
 # the function form
 
 
+def _hint_kinds(h: dict) -> set:
+    out = {h["k"]}
+    for sub in ([h["of"]] if h["k"] == "opt" else []) + list(h.get("elts", [])) + list(h.get("alts", [])):
+        out |= _hint_kinds(sub)
+    return out
+
+
+def maybe_lazy(rnd, case: dict, prob: float = 0.2) -> dict:
+    """With probability `prob` the case is written with forward references (hints quoted, aliases defined after the function), and
+    in half of those the function is called once BEFORE the aliases exist.  Only for plain functions whose hints dltype supports
+    (an unsupported hint is reported when the hints are resolved, i.e. at another moment than for an eager function)."""
+    hints = [p["hint"] for p in case["params"] if p.get("hint")] + ([case["ret"]] if case.get("ret") else [])
+    kinds = set().union(*[_hint_kinds(h) for h in hints]) if hints else set()
+    if case.get("method") or not hints or not kinds <= {"plain", "ann", "opt", "tuple"} or "enabled" in case:
+        return case
+    if rnd.random() < prob:
+        case["lazy_hints"] = True
+        case["lazy_early_call"] = rnd.random() < 0.5
+    return case
+
+
+LAZY_SPLIT = "# ---- aliases (defined after the function) ----\n"
+
+
 def fn_source(case: dict, name: str = "f") -> str:
     """def f(<params>) -> <ret>: log the call and return RET (or raise BodyError)."""
+    global _ALIASES
+    lazy = bool(case.get("lazy_hints")) and not case.get("method")
+    if (case.get("share_aliases") or lazy) and _ALIASES is None:
+        _ALIASES = {}
+        try:
+            body = fn_source(case, name)
+            alias_src = "".join(f"{a} = {full}\n" for full, a in _ALIASES.items())
+            # lazy: the aliases are defined AFTER the function and every hint is a quoted forward reference - the hints cannot be
+            # resolved at decoration time, only from the first call on (LAZY_SPLIT marks where run_fn_case may call early)
+            return body + LAZY_SPLIT + alias_src if lazy else alias_src + body
+        finally:
+            _ALIASES = None
+    q = repr if lazy else str
     params = []
     if case.get("method"):
         params.append("self")
     for p in case["params"]:
         s = p["name"]
         if p.get("hint") is not None:
-            s += ": " + hint_src(p["hint"])
+            s += ": " + q(hint_src(p["hint"]))
         if "default" in p:
             s += f" = DEFAULTS[{p['name']!r}]"
         if p.get("kwonly_marker"):
@@ -493,7 +539,7 @@ def fn_source(case: dict, name: str = "f") -> str:
         params.append(s)
         if p.get("posonly_end"):
             params.append("/")     # this and all earlier parameters are positional-only
-    ret = "" if case.get("ret") is None else " -> " + hint_src(case["ret"])
+    ret = "" if case.get("ret") is None else " -> " + q(hint_src(case["ret"]))
     prov = case.get("provider")
     if prov is None:
         deco = "dltype.dltyped()"
@@ -532,6 +578,27 @@ def run_fn_case(case: dict) -> dict:
             exec(compile(cls_src, '<case>', 'exec', dont_inherit=True), ns)  # noqa: S102
             target = ns["K"]().f
             raw = ns["K"].__dict__["f"]
+        elif LAZY_SPLIT in src:
+            head, tail = src.split(LAZY_SPLIT)
+            exec(compile(head, '<case>', 'exec', dont_inherit=True), ns)  # noqa: S102
+            if case.get("lazy_early_call"):
+                # a call while the names in the hints are still undefined: dltype cannot check it (it warns and runs the body);
+                # whatever it does, it must not change what later calls - made when the hints resolve - come out as
+                import warnings
+
+                eargs = {k: value_obj(v) for k, v in case["args"].items()}
+                with warnings.catch_warnings():
+                    warnings.simplefilter("ignore")
+                    try:
+                        ns["f"](*[eargs[n] for n in case.get("positional", [])], **{k: v for k, v in eargs.items() if k not in case.get("positional", [])})
+                    except BaseException:  # noqa: BLE001, S110
+                        pass
+                log.clear()
+                if isinstance(provider_obj, Provider):
+                    provider_obj.scope = dict(prov["scope"])
+                    provider_obj.calls = 0
+            exec(compile(tail, '<case>', 'exec', dont_inherit=True), ns)  # noqa: S102
+            target = raw = ns["f"]
         else:
             exec(compile(src, '<case>', 'exec', dont_inherit=True), ns)  # noqa: S102
             target = raw = ns["f"]
